@@ -28,7 +28,7 @@ try:
         print(p, 'exit', r.returncode, 'violations', len(viol), what[:1])
 finally:
     subprocess.run(['git', '-C', '/repo', 'checkout', '--', '.'], check=True)
-    # rebuild the harness against the restored tree so later checks start clean
+    subprocess.run(['python3', os.path.join(V, 'tools', 'pest2v.py'), '/repo/src/grammar.pest', os.path.join(V, 'coq', 'Peg', 'Grammar.v')])
 meta_p = os.path.join(d, 'meta.json')
 meta = json.load(open(meta_p)) if os.path.exists(meta_p) else {}
 meta.setdefault('check_results', {}).update(res)
